@@ -1,7 +1,7 @@
 (* AnsatzProofs.v — lemmas about the index-table machines of Chem/Ansatz.v (C07).
    No axioms: the operator generators are Section variables, their properties (dict keys are unique;
    H_order: the key order depends only on the key set) are explicit hypotheses of the theorems. *)
-From Coq Require Import List Arith Bool PeanoNat Lia Permutation.
+From Coq Require Import List Arith Bool PeanoNat Lia Permutation ZArith.
 From Coq Require FinFun.
 From Tangelo Require Import Linq.GateModel Chem.Ansatz.
 Import ListNotations.
@@ -711,9 +711,9 @@ Section VSQSProofs.
     destruct (hnav C c); simpl. rewrite block_length. lia. lia.
   Qed.
 
-  Lemma vsqs_interval_ok (c : cfg) th i d pre old post :
-    length pre = nvg c * i -> length old = nvg c -> stride c * i + stride c <= length th ->
-    vsqs_interval T C V gu c th i (pre ++ old ++ post) = Ok (pre ++ vsqs_interval_layout T C c gu th i d ++ post).
+  Lemma vsqs_interval_ok (c : cfg) off th i d pre old post :
+    length pre = off + nvg c * i -> length old = nvg c -> stride c * i + stride c <= length th ->
+    vsqs_interval T C V gu c off th i (pre ++ old ++ post) = Ok (pre ++ vsqs_interval_layout T C c gu th i d ++ post).
   Proof.
     intros Hp Ho Hth. unfold vsqs_interval, vsqs_interval_layout.
     set (n1 := length (hinit C c) * ord c). set (n2 := length (hfinal C c) * ord c).
@@ -756,9 +756,9 @@ Section VSQSProofs.
       + rewrite app_length, block_length. unfold n1 in *. lia.
   Qed.
 
-  Lemma vsqs_loop_ok (c : cfg) th d : forall m k pre rest,
-    length pre = nvg c * k -> length rest = nvg c * m -> stride c * (k + m) <= length th ->
-    vsqs_loop T C V gu c th (seq k m) (pre ++ rest)
+  Lemma vsqs_loop_ok (c : cfg) off th d : forall m k pre rest,
+    length pre = off + nvg c * k -> length rest = nvg c * m -> stride c * (k + m) <= length th ->
+    vsqs_loop T C V gu c off th (seq k m) (pre ++ rest)
     = Ok (pre ++ flat_map (fun i => vsqs_interval_layout T C c gu th i d) (seq k m)).
   Proof.
     induction m as [|m IH]; intros k pre rest Hp Hr Hth.
@@ -768,7 +768,7 @@ Section VSQSProofs.
       assert (length old = nvg c) as Hold by (unfold old; rewrite firstn_length; nia).
       assert (length rest' = nvg c * m) as Hrest by (unfold rest'; rewrite skipn_length; nia).
       rewrite E. simpl seq. simpl vsqs_loop.
-      rewrite (vsqs_interval_ok c th k d pre old rest') by (auto; nia).
+      rewrite (vsqs_interval_ok c off th k d pre old rest') by (auto; nia).
       replace (pre ++ vsqs_interval_layout T C c gu th k d ++ rest')
         with ((pre ++ vsqs_interval_layout T C c gu th k d) ++ rest') by (rewrite <- app_assoc; reflexivity).
       rewrite IH.
@@ -785,7 +785,7 @@ Section VSQSProofs.
     vsqs_update T C V gu c v th = Ok (vsqs_layout T C c gu th d).
   Proof.
     intros Hv Hth. unfold vsqs_update, vsqs_layout.
-    apply (vsqs_loop_ok c th d (n_steps C c) 0 [] v); simpl; auto.
+    apply (vsqs_loop_ok c 0 th d (n_steps C c) 0 [] v); simpl; auto.
     unfold vsqs_n_var_params in Hth. nia.
   Qed.
 
@@ -808,6 +808,63 @@ Section VSQSProofs.
     unfold vsqs_layout. induction (seq 0 (n_steps C c)) as [|i r IH]; simpl; auto.
     rewrite map_app, <- IH. f_equal. unfold vsqs_interval_layout.
     rewrite !map_app, !block_map. destruct (hnav C c); simpl. rewrite block_map. reflexivity. reflexivity.
+  Qed.
+
+  (* ---- the repaired update: Python-int offset n_ref = len(variational gates) - n_var_gates*(intervals-1) ---- *)
+  Lemma pyupd_nat X (s : nat) (x : X) l : pyupd (Z.of_nat s) x l = upd s x l.
+  Proof.
+    unfold pyupd. destruct (Z.of_nat s <? 0)%Z eqn:E. apply Z.ltb_lt in E. lia. rewrite Nat2Z.id. reflexivity.
+  Qed.
+  Lemma wblockz_nat X (vals : list X) : forall s l, wblockz (Z.of_nat s) vals l = wblock s vals l.
+  Proof.
+    induction vals as [|x r IH]; intros s l; simpl; auto. rewrite pyupd_nat. destruct (upd s x l); auto.
+    replace (Z.of_nat s + 1)%Z with (Z.of_nat (S s)) by lia. apply IH.
+  Qed.
+  Lemma upd_qu_op_z_nat (c : cfg) q s t num v :
+    upd_qu_op_z T C V gu c q (Z.of_nat s) t num v = upd_qu_op T C V gu c q s t num v.
+  Proof.
+    unfold upd_qu_op_z, upd_qu_op. rewrite wblockz_nat. destruct (wblock s (map (gu t) q) v); auto.
+    destruct (order2 C c); auto. rewrite <- Nat2Z.inj_add. apply wblockz_nat.
+  Qed.
+  Lemma vsqs_interval_z_nat (c : cfg) off th i v :
+    vsqs_interval_z T C V gu c (Z.of_nat off) th i v = vsqs_interval T C V gu c off th i v.
+  Proof.
+    unfold vsqs_interval_z, vsqs_interval. cbv zeta.
+    destruct (getp T th (stride c * i)) as [t0|e]; auto.
+    rewrite <- Nat2Z.inj_add, upd_qu_op_z_nat.
+    destruct (upd_qu_op T C V gu c (hinit C c) (off + nvg c * i) t0 (length (hinit C c)) v) as [v1|e]; auto.
+    destruct (getp T th (stride c * i + 1)) as [t1|e]; auto.
+    rewrite <- Nat2Z.inj_add, upd_qu_op_z_nat.
+    destruct (upd_qu_op T C V gu c (hfinal C c) (off + nvg c * i + length (hinit C c) * ord c) t1 (length (hfinal C c)) v1) as [v2|e]; auto.
+    destruct (hnav C c) as [qn|]; auto.
+    destruct (getp T th (stride c * i + 2)) as [t2|e]; auto.
+    rewrite <- Nat2Z.inj_add. apply upd_qu_op_z_nat.
+  Qed.
+  Lemma vsqs_loop_z_nat (c : cfg) off th : forall is v,
+    vsqs_loop_z T C V gu c (Z.of_nat off) th is v = vsqs_loop T C V gu c off th is v.
+  Proof.
+    induction is as [|i r IH]; intros v; simpl; auto. rewrite vsqs_interval_z_nat.
+    destruct (vsqs_interval T C V gu c off th i v); auto.
+  Qed.
+
+  (* for ANY prefix of variational gates coming from the reference circuit, an update of the advertised
+     length writes exactly the VSQS segment; any other length is rejected *)
+  Lemma vsqs_update_fixed_ok (c : cfg) pre w th d :
+    length w = nvg c * n_steps C c -> length th = vsqs_n_var_params C c ->
+    vsqs_update_fixed T C V gu c (pre ++ w) th = Ok (pre ++ vsqs_layout T C c gu th d).
+  Proof.
+    intros Hw Hth. unfold vsqs_update_fixed. rewrite Hth, Nat.eqb_refl.
+    replace (Z.of_nat (length (pre ++ w)) - Z.of_nat (nvg c * n_steps C c))%Z with (Z.of_nat (length pre))
+      by (rewrite app_length, Hw; lia).
+    rewrite vsqs_loop_z_nat. unfold vsqs_layout.
+    apply (vsqs_loop_ok c (length pre) th d (n_steps C c) 0 pre w); auto. nia.
+    unfold vsqs_n_var_params in Hth. nia.
+  Qed.
+  Lemma vsqs_update_fixed_size (c : cfg) v th :
+    length th <> vsqs_n_var_params C c -> vsqs_update_fixed T C V gu c v th = Err ValueError.
+  Proof.
+    intros H. unfold vsqs_update_fixed. destruct (length th =? vsqs_n_var_params C c) eqn:E; auto.
+    apply Nat.eqb_eq in E. contradiction.
   Qed.
 
   Variable R : V -> V -> Prop.
@@ -837,6 +894,19 @@ Section VSQSProofs.
     - apply vsqs_update_ok; auto. unfold vsqs_build. rewrite (somes_all _ _ Hnd). apply layout_length.
     - intros Hnd'. unfold vsqs_build, no_drop in *. rewrite (layout_map _ c gb) in *. rewrite (layout_map _ c gu).
       apply somes_rel. auto.
+  Qed.
+
+  (* the full statement on the repaired code: whatever variational gates the user's reference circuit has *)
+  Theorem vsqs_offsets_any_reference (c : cfg) (pre : list V) th0 th d :
+    no_drop c th0 d ->
+    (length th = vsqs_n_var_params C c ->
+       vsqs_update_fixed T C V gu c (pre ++ vsqs_build T C V gb c th0 d) th = Ok (pre ++ vsqs_layout T C c gu th d))
+    /\ (length th <> vsqs_n_var_params C c ->
+       vsqs_update_fixed T C V gu c (pre ++ vsqs_build T C V gb c th0 d) th = Err ValueError).
+  Proof.
+    intros Hnd. split; intros Hth.
+    - apply vsqs_update_fixed_ok; auto. unfold vsqs_build. rewrite (somes_all _ _ Hnd). apply layout_length.
+    - apply vsqs_update_fixed_size; auto.
   Qed.
 End VSQSProofs.
 
